@@ -11,6 +11,7 @@ func buildProperties() []Property {
 				{"R-RESOLVE-ALL", 3, ruleResolveAll("C17")},
 				{"R-DCG-THREAD", 14, ruleDCGThread},
 				{"R-DCG-STEADFAST", 4, ruleDCGSteadfast},
+				{"R-DCG-CBODY-TESTED", 1, ruleDCGCBodyTested},
 				{"R-DCG-LOOKAHEAD", 1, ruleDCGLookahead},
 			},
 		},
@@ -30,6 +31,7 @@ func buildProperties() []Property {
 				{"R-ESCAPE-VALIDATED", 1, ruleEscapeValidated},
 				{"R-BRACKET-PRIORITY", 2, ruleBracketPriority},
 				{"R-INFIX-PRIORITY", 2, ruleInfixPriority},
+				{"R-ELLIPSIS-GUARDED", 5, ruleEllipsisGuarded},
 				{"R-FLOAT-TEXT", 2, ruleFloatText},
 				{"R-TEXT-RUNE", 8, ruleTextRune},
 				{"R-OPS-SOURCE", 4, ruleOpsSource},
@@ -44,6 +46,7 @@ func buildProperties() []Property {
 				{"R-CODE-NARROW", 5, ruleCodeNarrow},
 				{"R-CODE-VALID", 3, ruleCodeValid},
 				{"R-BOOTSTRAP-PURE", 4, ruleBootstrapPure},
+				{"R-BIND-RESOLVED", 2, ruleBindResolved},
 				{"R-TAIL-CDR", 1, ruleTailCdr},
 				{"R-TRIM-CUTSET", 1, ruleTrimCutset},
 				{"R-RESOLVE-ALL", 130, ruleResolveAll("C16")},
@@ -80,6 +83,7 @@ func buildProperties() []Property {
 				{"R-COMPARE-RANGE", 20, ruleCompareRange},
 				{"R-SET-ORDER", 4, ruleSetOrder},
 				{"R-COMPARE-ABSTRACT", 4, ruleCompareAbstract},
+				{"R-ATOM-ORDER-BY-NAME", 2, ruleAtomOrderByName},
 				{"R-COMPOUND-ORDER", 5, ruleCompoundOrder},
 				{"R-INT-WRAP", 3, ruleIntWrap},
 				{"R-COMPOUND-UNIFORM", 7, ruleCompoundUniform},
@@ -181,6 +185,7 @@ func buildProperties() []Property {
 				{"R-COMMA-FIXED", 1, ruleCommaFixed},
 				{"R-RESOLVE-ALL", 8, ruleResolveAll("C18")},
 				{"R-OP-ATOMIC", 1, ruleOpAtomic},
+				{"R-ENUM-UNIFIES", 2, ruleEnumUnifies},
 				{"R-OP-DEFINES-ALL", 1, ruleOpDefinesAll},
 				{"R-OPS-WRITERS", 2, ruleOpsWriters},
 				{"R-OPS-SOURCE", 4, ruleOpsSource},
@@ -207,6 +212,7 @@ func buildProperties() []Property {
 			Decides:    "each clause activation runs on a persistent environment (no binding leaks between activations, sibling branches or successive answers: every Env store targets a private node); the interpreter threads its variable frame, continuation and cut barrier unchanged through its own re-entries; every opcode has a handler. A functor-name comparison is always paired with an examination of the same value's arity. Every clause of a procedure becomes an alternative of a call (no pre-filter); no built-in runs its continuation from inside a loop of its own body.",
 			NotDecided: "that the answer sequence equals the reference SLD sequence (clause order, goal order, completeness, termination reporting) - a statement about the dynamic shape of the promise stack for every program.",
 			Rules: []RuleDef{
+				{"R-LOOP-CAPTURE", 1, ruleLoopCapture},
 				{"R-CALL-ALL-CLAUSES", 1, ruleCallAllClauses},
 				{"R-CONT-NOT-IN-LOOP", 1, ruleContNotInLoop},
 				{"R-ANON-VAR", 2, ruleAnonVar},
@@ -261,6 +267,7 @@ func buildProperties() []Property {
 			Rules: []RuleDef{
 				{"R-VARIANT-DESCENDS", 1, ruleVariantDescends},
 				{"R-PARTIAL-BOTH-PARTS", 3, rulePartialBothParts},
+				{"R-LOOP-CAPTURE", 1, ruleLoopCapture},
 				{"R-VARIANT-BIJECTIVE", 1, ruleVariantBijective},
 				{"R-GROUP-ALL", 1, ruleGroupAll},
 				{"R-RESOLVE-ALL", 18, ruleResolveAll("C11")},
@@ -289,6 +296,7 @@ func buildProperties() []Property {
 			Decides:    "a failed unification leaves no binding (environments are persistent: every Env store targets a node private to the writer); unify_with_occurs_check applies the check at every depth and before every bind; atomic terms are compared with a total non-panicking equality; every slice/string encoding of a list reports './2 through the Compound interface. The occurs check recurses into the referent of a bound variable and into every argument; the dynamic type of a term is inspected only after resolution; functor-name comparisons are paired with arity. unify never re-enters itself through a wrapper that fixes the occurs-check flag; the tail of a partial list replaces only the cdr; every one-character name, U+FFFD included, has the rune as its only representation. A function that reads the prefix field of a partial list reads its tail too; the byte length of a compact text list never serves as an element count.",
 			NotDecided: "most-generality, symmetry, idempotence, and that Arg(n) of the four list encodings denotes the same abstract argument (algebraic laws over all term pairs).",
 			Rules: []RuleDef{
+				{"R-BIND-RESOLVED", 2, ruleBindResolved},
 				{"R-TEXT-RUNE", 8, ruleTextRune},
 				{"R-PARTIAL-BOTH-PARTS", 3, rulePartialBothParts},
 				{"R-FLOAT-FINITE", 2, ruleFloatFinite},
@@ -315,6 +323,7 @@ func buildProperties() []Property {
 				{"R-FLOAT-FINITE", 1, ruleFloatFinite},
 				{"R-RESOLVE-ALL", 6, ruleResolveAll("C07")},
 				{"R-INT-EXACT", 10, ruleIntExact},
+				{"R-INT-ARM-NO-FLOAT", 4, ruleIntArmNoFloat},
 				{"R-OVERFLOW-GUARD", 5, ruleOverflowGuard},
 				{"R-DIV-GUARD", 3, ruleDivGuard},
 				{"R-SHIFT-GUARD", 2, ruleShiftGuard},
